@@ -3720,4 +3720,702 @@ theorem verify_sound_multi (hf : HashFns) (hinj : BranchInj hf) (L : List Bytes)
   rw [blk_leaf L pos[k] _ hl, rootH_singleton, hl]
 
 
+/-! ### `getSiblingHashes` for several leaves -/
+
+theorem xor_succ_even (x : Nat) (h : x % 2 = 0) : x ^^^ (x + 1) = 1 := by
+  apply Nat.eq_of_testBit_eq
+  intro i
+  rw [Nat.testBit_xor]
+  cases i with
+  | zero => simp [Nat.testBit_zero]; omega
+  | succ i =>
+    simp only [Nat.testBit_succ]
+    rw [show (x + 1) / 2 = x / 2 by omega]
+    simp
+
+theorem xor_eq_one_even (x y : Nat) (h : x % 2 = 0) (e : x ^^^ y = 1) : y = x + 1 := by
+  have h1 : y = x ^^^ (x ^^^ y) := by rw [← Nat.xor_assoc, Nat.xor_self, Nat.zero_xor]
+  have h2 : x + 1 = x ^^^ (x ^^^ (x + 1)) := by rw [← Nat.xor_assoc, Nat.xor_self, Nat.zero_xor]
+  rw [h1, e, h2, xor_succ_even x h]
+
+theorem repLoc_blk (L : List Bytes) (l k : Nat) :
+    blk L (repLoc L.length l k).1 (repLoc L.length l k).2 = blk L l k := by
+  obtain ⟨l', _, h2, h3, _, _⟩ := descend_blk L (l + 1) l k (by omega)
+  unfold repLoc
+  rw [h2]; exact h3
+
+theorem repLoc_proper_of_nonempty {n l k : Nat} (hk : k * 2 ^ l < n) :
+    proper n (repLoc n l k).1 (repLoc n l k).2 := by
+  obtain ⟨l', _, h2, h3⟩ := repLoc_spec n l k
+  rw [h2]; exact h3 hk
+
+theorem removeIdx_head (cur : Nat) (rest : List Nat) (h : cur ∉ rest) : removeIdx (cur :: rest) cur = rest := by
+  unfold removeIdx
+  rw [List.filter_cons_of_neg (by simp), List.filter_eq_self]
+  intro a ha
+  simp only [bne_iff_ne, ne_eq]
+  intro e; subst e; exact h ha
+
+
+/-- the worklist by positions -/
+def wlp (h l : Nat) (A B : List Nat) : List Nat := A.map (nIdx h l) ++ B.map (nIdx h (l + 1))
+
+def posLay (P : List Nat) : Lay := P.map fun m => (m, [])
+
+theorem wl_posLay (h l : Nat) (A B : List Nat) : wl h l (posLay A) (posLay B) = wlp h l A B := by
+  simp [wl, wlp, posLay, List.map_map, Function.comp_def]
+
+theorem wl_eq_wlp (h l : Nat) (A B : Lay) : wl h l A B = wlp h l (A.map (·.1)) (B.map (·.1)) := by
+  simp [wl, wlp, List.map_map, Function.comp_def]
+
+theorem insertIdx_wlp_fresh {h l m : Nat} (hl : l + 1 ≤ h) (hm : m < 2 ^ (h - (l + 1))) (A B : List Nat)
+    (hA : ∀ a ∈ A, a < 2 ^ (h - l)) (hB : ∀ b ∈ B, b < m) :
+    insertIdx (wlp h l A B) (nIdx h (l + 1) m) = wlp h l A (B ++ [m]) := by
+  rw [← wl_posLay, insertIdx_wl_fresh hl hm (posLay A) (posLay B)
+    (by intro a ha; simp only [posLay, List.mem_map] at ha; obtain ⟨x, hx, rfl⟩ := ha; exact hA x hx)
+    (by intro b hb; simp only [posLay, List.mem_map] at hb; obtain ⟨x, hx, rfl⟩ := hb; exact hB x hx) [],
+    ← wl_posLay]
+  simp [posLay]
+
+/-- one iteration of `getSiblingHashes` on a node that is not the left one of a pair in the list -/
+theorem siblingLoop_iter (hf : HashFns) (t : Tree) (L : List Bytes) (hst : Stored hf t L) (h : Nat)
+    (hnH : L.length ≤ 2 ^ (h - 1)) (orig : List Nat) (l k : Nat) (hl : l + 2 ≤ h) (hk : k * 2 ^ l < L.length)
+    (f : Nat) (W : List Nat) (acc : List Bytes)
+    (hnp : k % 2 = 1 ∨ ∀ nx W', W = nx :: W' →
+        (bitLen (nIdx h l k) == bitLen nx && (nIdx h l k ^^^ nx) == 1) = false)
+    (hnot : nIdx h l k ∉ W)
+    (horig : sibOf k * 2 ^ l < L.length → orig.contains (locIdx h (repLoc L.length l (sibOf k))) = false) :
+    siblingLoop t (layerStructure L.length) L.length h orig (f + 1) (nIdx h l k :: W) acc
+      = siblingLoop t (layerStructure L.length) L.length h orig f (insertIdx W (nIdx h (l + 1) (k / 2)))
+          (acc ++ sibOne hf L l k) ∨
+    (siblingLoop t (layerStructure L.length) L.length h orig (f + 1) (nIdx h l k :: W) acc = none ∧ 30 < h) := by
+  have hkb := pos_lt_of_nonempty hnH (show l ≤ h - 1 by omega) hk
+  have hkb' : k < 2 ^ (h - l) := Nat.lt_of_lt_of_le hkb pow_pred_le
+  have hne : (nIdx h l k == 2) = false := by simpa using nIdx_ne_two hl
+  have hm : nIdx h l k % 2 = k % 2 := nIdx_mod2 (by omega)
+  have hcond : ∀ (b : Bool), (k % 2 = 1 ∨ b = false) → (nIdx h l k % 2 == 0 && b) = false := by
+    intro b hb
+    rcases hb with hb | hb
+    · simp [hm, hb]
+    · simp [hb]
+  have hunf : siblingLoop t (layerStructure L.length) L.length h orig (f + 1) (nIdx h l k :: W) acc =
+      match newLoc (nIdx h l k) h with
+      | none => none
+      | some loc =>
+        match rightSiblingInfo (layerStructure L.length) loc.2 loc.1 L.length with
+        | none => siblingLoop t (layerStructure L.length) L.length h orig f
+            (insertIdx (removeIdx (nIdx h l k :: W) (nIdx h l k)) (nIdx h l k / 2)) acc
+        | some sl =>
+          match locIndex sl h with
+          | none => none
+          | some sidx =>
+            if orig.contains sidx then siblingLoop t (layerStructure L.length) L.length h orig f
+              (insertIdx (removeIdx (nIdx h l k :: W) (nIdx h l k)) (nIdx h l k / 2)) acc
+            else
+              match t.getHash sl with
+              | none => none
+              | some hh => siblingLoop t (layerStructure L.length) L.length h orig f
+                  (insertIdx (removeIdx (nIdx h l k :: W) (nIdx h l k)) (nIdx h l k / 2)) (acc ++ [hh]) := by
+    cases W with
+    | nil =>
+      simp only [siblingLoop, Bool.and_false, Bool.false_eq_true, if_false, hne]
+      rfl
+    | cons nx W' =>
+      have := hcond (bitLen (nIdx h l k) == bitLen nx && (nIdx h l k ^^^ nx) == 1) (by
+        rcases hnp with h1 | h1
+        · left; exact h1
+        · right; exact h1 nx W' rfl)
+      simp only [siblingLoop, this, Bool.false_eq_true, if_false, hne]
+      rfl
+  rw [hunf]
+  cases hloc : newLoc (nIdx h l k) h with
+  | none =>
+    right
+    refine ⟨rfl, ?_⟩
+    rcases Nat.lt_or_ge 30 h with hb | hb
+    · exact hb
+    · rw [newLoc_nIdx_some (by omega) (by omega) hb] at hloc; cases hloc
+  | some loc =>
+    have := newLoc_nIdx (by omega) hkb' loc hloc
+    subst this
+    simp only
+    rw [nIdx_half (by omega), removeIdx_head _ _ hnot]
+    unfold sibOne
+    by_cases hlt : sibOf k * 2 ^ l < L.length
+    · rw [rsi_eq_repLoc hlt, if_pos hlt]
+      simp only
+      cases hsidx : locIndex (repLoc L.length l (sibOf k)) h with
+      | none =>
+        right
+        refine ⟨rfl, ?_⟩
+        rcases Nat.lt_or_ge 30 h with hb | hb
+        · exact hb
+        · rw [locIndex_repLoc_some hnH hl hlt hb] at hsidx; cases hsidx
+      | some sidx =>
+        left
+        have := locIndex_repLoc hnH hl hlt hsidx
+        subst this
+        simp only [horig hlt, Bool.false_eq_true, if_false]
+        rw [hst _ _ (repLoc_proper_of_nonempty hlt), repLoc_blk]
+    · left
+      rw [rsi_none _ _ _ (by omega), if_neg hlt]
+      simp
+
+/-- one iteration on the left node of a pair -/
+theorem siblingLoop_iter_pair (t : Tree) (n h : Nat) (orig : List Nat) (l k : Nat) (hl : l + 1 ≤ h)
+    (hk1 : k + 1 < 2 ^ (h - l)) (hev : k % 2 = 0) (f : Nat) (W : List Nat) (acc : List Bytes) :
+    siblingLoop t (layerStructure n) n h orig (f + 1) (nIdx h l k :: nIdx h l (k + 1) :: W) acc
+      = siblingLoop t (layerStructure n) n h orig f (insertIdx W (nIdx h (l + 1) (k / 2))) acc := by
+  have hm : nIdx h l k % 2 = 0 := by rw [nIdx_mod2 hl]; exact hev
+  have hb1 := bitLen_nIdx (show k < 2 ^ (h - l) by omega)
+  have hb2 := bitLen_nIdx hk1
+  have hx : nIdx h l k ^^^ nIdx h l (k + 1) = 1 := by
+    have : nIdx h l (k + 1) = nIdx h l k + 1 := by unfold nIdx; omega
+    rw [this]; exact xor_succ_even _ hm
+  simp only [siblingLoop, hm, hb1, hb2, hx, beq_self_eq_true, Bool.and_self, if_true, List.drop_one, List.tail_cons]
+  rw [nIdx_half hl]
+
+
+/-- the invariant of `getSiblingHashes` inside a layer (`S`: the queried leaf positions) -/
+structure SInv (n l : Nat) (S A B : List Nat) : Prop where
+  ascA : A.Pairwise (· < ·)
+  okA : ∀ a ∈ A, a * 2 ^ l < n
+  ascB : B.Pairwise (· < ·)
+  okB : ∀ b ∈ B, b * 2 ^ (l + 1) < n
+  sepBA : ∀ b ∈ B, ∀ a ∈ A, 2 * b + 1 < a
+  orig : ∀ p ∈ S, p / 2 ^ l ∈ A ∨ p / 2 ^ (l + 1) ∈ B
+
+theorem SInv_advance {n l : Nat} {S pre rest B : List Nat} {m : Nat} (hinv : SInv n l S (pre ++ rest) B)
+    (hne : pre ≠ []) (hpre : ∀ e ∈ pre, e / 2 = m) (hsep : ∀ a ∈ rest, 2 * m + 1 < a) :
+    SInv n l S rest (B ++ [m]) := by
+  obtain ⟨e0, he0⟩ := List.exists_mem_of_ne_nil pre hne
+  have he0A : e0 ∈ pre ++ rest := by simp [he0]
+  have hm0 := hpre e0 he0
+  refine ⟨(List.pairwise_append.mp hinv.ascA).2.1, fun a ha => hinv.okA a (by simp [ha]), ?_, ?_, ?_, ?_⟩
+  · rw [List.pairwise_append]
+    refine ⟨hinv.ascB, by simp, ?_⟩
+    intro b hb c hc
+    simp only [List.mem_singleton] at hc
+    subst hc
+    have := hinv.sepBA b hb e0 he0A
+    omega
+  · intro b hb
+    simp only [List.mem_append, List.mem_singleton] at hb
+    rcases hb with hb | rfl
+    · exact hinv.okB b hb
+    · rw [← hm0]; exact half_nonempty (hinv.okA e0 he0A)
+  · intro b hb a ha
+    simp only [List.mem_append, List.mem_singleton] at hb
+    rcases hb with hb | rfl
+    · exact hinv.sepBA b hb a (by simp [ha])
+    · exact hsep a ha
+  · intro p hp
+    rcases hinv.orig p hp with h | h
+    · simp only [List.mem_append] at h
+      rcases h with h | h
+      · right
+        simp only [List.mem_append, List.mem_singleton]
+        right
+        rw [← hpre _ h, div_pow_succ]
+      · left; exact h
+    · right; simp [h]
+
+theorem SInv_next {n l : Nat} {S B : List Nat} (hinv : SInv n l S [] B) : SInv n (l + 1) S B [] := by
+  refine ⟨hinv.ascB, hinv.okB, List.Pairwise.nil, (fun b hb => by cases hb), (fun b hb => by cases hb), ?_⟩
+  intro p hp
+  rcases hinv.orig p hp with h | h
+  · cases h
+  · left; exact h
+
+theorem sibLayer_length (hf : HashFns) (L : List Bytes) (l : Nat) : ∀ (m : Nat) (A : List Nat), A.length = m →
+    (sibLayer hf L l A).2.length ≤ A.length := by
+  intro m
+  induction m using Nat.strongRecOn with
+  | _ m ih =>
+    intro A hm
+    match A, hm with
+    | [], _ => simp [sibLayer]
+    | k :: rest, hm =>
+      by_cases hp : ∃ rest', rest = (k + 1) :: rest' ∧ k % 2 = 0
+      · obtain ⟨rest', rfl, hk2⟩ := hp
+        rw [sibLayer_pair hf L l k rest' hk2]
+        have := ih rest'.length (by simp at hm; omega) rest' rfl
+        simp; omega
+      · rw [sibLayer_single hf L l k rest (by
+          intro k' rest' e hc
+          exact hp ⟨rest', by rw [e, hc.2], hc.1⟩)]
+        have := ih rest.length (by simp at hm; omega) rest rfl
+        simp; omega
+
+theorem wlp_cons (h l k : Nat) (rest B : List Nat) : wlp h l (k :: rest) B = nIdx h l k :: wlp h l rest B := by
+  simp [wlp]
+
+/-- a whole layer of `getSiblingHashes` follows `sibLayer` -/
+theorem sibLayerLoop (hf : HashFns) (t : Tree) (L : List Bytes) (hst : Stored hf t L) (h : Nat)
+    (hnH : L.length ≤ 2 ^ (h - 1)) (S : List Nat) (l : Nat) (hl : l + 2 ≤ h) :
+    ∀ (m : Nat) (A B : List Nat) (acc : List Bytes) (f : Nat), A.length = m → SInv L.length l S A B → m ≤ f →
+      (∃ f', f - m ≤ f' ∧ SInv L.length l S [] (B ++ (sibLayer hf L l A).2) ∧
+        siblingLoop t (layerStructure L.length) L.length h (S.map fun p => 2 ^ h + p) f (wlp h l A B) acc
+          = siblingLoop t (layerStructure L.length) L.length h (S.map fun p => 2 ^ h + p) f'
+              (wlp h l [] (B ++ (sibLayer hf L l A).2)) (acc ++ (sibLayer hf L l A).1)) ∨
+      (siblingLoop t (layerStructure L.length) L.length h (S.map fun p => 2 ^ h + p) f (wlp h l A B) acc = none
+        ∧ 30 < h) := by
+  intro m
+  induction m using Nat.strongRecOn with
+  | _ m ih =>
+    intro A B acc f hm hinv hf'
+    match A, hm with
+    | [], hm =>
+      left
+      exact ⟨f, by omega, by simpa [sibLayer] using hinv, by simp [sibLayer]⟩
+    | k :: rest, hm =>
+      simp only [List.length_cons] at hm
+      have hk := hinv.okA k (by simp)
+      have hBlt : ∀ b ∈ B, b < k / 2 := by
+        intro b hb
+        have := hinv.sepBA b hb k (by simp); omega
+      have hmb := pos_lt_of_nonempty hnH (show l + 1 ≤ h - 1 by omega) (half_nonempty hk)
+      have hmb' : k / 2 < 2 ^ (h - (l + 1)) := Nat.lt_of_lt_of_le hmb pow_pred_le
+      have hAb : ∀ a ∈ k :: rest, a < 2 ^ (h - l) := by
+        intro a ha
+        exact Nat.lt_of_lt_of_le (pos_lt_of_nonempty hnH (show l ≤ h - 1 by omega) (hinv.okA a ha)) pow_pred_le
+      have hasc := List.pairwise_cons.mp hinv.ascA
+      by_cases hp : ∃ rest', rest = (k + 1) :: rest' ∧ k % 2 = 0
+      · obtain ⟨rest', rfl, hev⟩ := hp
+        simp only [List.length_cons] at hm
+        obtain ⟨f', rfl⟩ : ∃ f', f = f' + 1 := ⟨f - 1, by omega⟩
+        rw [sibLayer_pair hf L l k rest' hev, wlp_cons, wlp_cons,
+          siblingLoop_iter_pair t L.length h _ l k (by omega) (hAb (k + 1) (by simp)) hev f' _ acc,
+          insertIdx_wlp_fresh (by omega) hmb' rest' B (fun a ha => hAb a (by simp [ha])) hBlt]
+        have hinv1 : SInv L.length l S rest' (B ++ [k / 2]) :=
+          SInv_advance (pre := [k, k + 1]) (by simpa using hinv) (by simp) (by
+            intro e he
+            simp only [List.mem_cons, List.not_mem_nil, or_false] at he
+            rcases he with rfl | rfl
+            · rfl
+            · omega) (by
+            intro a ha
+            have := (List.pairwise_cons.mp hasc.2).1 a ha
+            omega)
+        rcases ih rest'.length (by omega) rest' _ acc f' rfl hinv1 (by omega) with ⟨f2, h1, h2, h3⟩ | hfail
+        · left
+          refine ⟨f2, by omega, by simpa using h2, ?_⟩
+          rw [h3]; simp
+        · right; exact hfail
+      · have hns : ∀ k' rest', rest = k' :: rest' → ¬ (k % 2 = 0 ∧ k' = k + 1) := by
+          intro k' rest' e hc
+          exact hp ⟨rest', by rw [e, hc.2], hc.1⟩
+        obtain ⟨f', rfl⟩ : ∃ f', f = f' + 1 := ⟨f - 1, by omega⟩
+        have hsep : ∀ a ∈ rest, 2 * (k / 2) + 1 < a := by
+          intro a ha
+          have h1 := hasc.1 a ha
+          cases rest with
+          | nil => cases ha
+          | cons b r =>
+            have hnot := hns b r rfl
+            have hb := hasc.1 b (by simp)
+            simp only [List.mem_cons] at ha
+            rcases ha with rfl | ha
+            · omega
+            · have := (List.pairwise_cons.mp hasc.2).1 a ha
+              omega
+        rw [sibLayer_single hf L l k rest hns, wlp_cons]
+        have hkb' := hAb k (by simp)
+        have hb1 := bitLen_nIdx hkb'
+        have hiter := siblingLoop_iter hf t L hst h hnH (S.map fun p => 2 ^ h + p) l k hl hk f' (wlp h l rest B) acc
+          (by
+            rcases Nat.mod_two_eq_zero_or_one k with hev | hod
+            · right
+              intro nx W' hW
+              cases rest with
+              | nil =>
+                cases B with
+                | nil => simp [wlp] at hW
+                | cons b B' =>
+                  simp only [wlp, List.map_nil, List.nil_append, List.map_cons, List.cons.injEq] at hW
+                  have hbb := hBlt b (by simp)
+                  have hb2 := bitLen_nIdx (show b < 2 ^ (h - (l + 1)) by omega)
+                  rw [← hW.1, hb1, hb2]
+                  have : (h - l + 1 == h - (l + 1) + 1) = false := by simp; omega
+                  simp [this]
+              | cons a r =>
+                simp only [wlp, List.map_cons, List.cons_append, List.cons.injEq] at hW
+                have ha := hsep a (by simp)
+                rw [← hW.1]
+                have : ¬ (nIdx h l k ^^^ nIdx h l a = 1) := by
+                  intro e
+                  have := xor_eq_one_even _ _ (by rw [nIdx_mod2 (by omega)]; exact hev) e
+                  unfold nIdx at this
+                  omega
+                simp [this]
+            · left; exact hod)
+          (by
+            intro hmem
+            simp only [wlp, List.mem_append, List.mem_map] at hmem
+            rcases hmem with ⟨a, ha, e⟩ | ⟨b, hb, e⟩
+            · have := hasc.1 a ha
+              unfold nIdx at e; omega
+            · have hbb := hBlt b hb
+              have := (nIdx_inj (by omega) (by omega) (show b < 2 ^ (h - (l + 1)) by omega) hkb' e).1
+              omega)
+          (by
+            intro hlt
+            rw [← Bool.not_eq_true]
+            intro hc
+            simp only [List.contains_eq_mem, List.mem_map, decide_eq_true_eq] at hc
+            obtain ⟨p, hpS, hpe⟩ := hc
+            obtain ⟨l2, g1, g2, g3⟩ := repLoc_spec L.length l (sibOf k)
+            rw [g2] at hpe
+            unfold locIdx at hpe
+            simp only at hpe
+            have hsb := pos_lt_of_nonempty hnH (show l2 ≤ h - 1 by omega) (proper_lt (g3 hlt))
+            have hplt : p < 2 ^ (h - 0) := by
+              have : nIdx h 0 p = nIdx h l2 (sibOf k * 2 ^ (l - l2)) := by rw [nIdx_zero]; exact hpe
+              have hlog := nIdx_log2 (Nat.lt_of_lt_of_le hsb pow_pred_le)
+              rw [← this, nIdx_zero] at hlog
+              have hp0 : 0 < 2 ^ h := Nat.pow_pos (by decide)
+              have hlt2 := @Nat.lt_log2_self (2 ^ h + p)
+              rw [hlog] at hlt2
+              have : 2 ^ (h - l2 + 1) ≤ 2 ^ (h + 1) := Nat.pow_le_pow_right (by decide) (by omega)
+              rw [Nat.pow_succ] at this
+              simp; omega
+            obtain ⟨e1, e2⟩ := nIdx_inj (l := 0) (by omega) (by omega) hplt
+              (Nat.lt_of_lt_of_le hsb pow_pred_le) (by rw [nIdx_zero]; exact hpe)
+            subst e1
+            simp only [Nat.sub_zero] at e2
+            have hpl : p / 2 ^ l = sibOf k := by rw [e2, Nat.mul_div_cancel _ (Nat.pow_pos (by decide))]
+            have hpl1 : p / 2 ^ (l + 1) = k / 2 := by rw [div_pow_succ, hpl, sibOf_div]
+            rcases hinv.orig p hpS with hA | hB
+            · rw [hpl] at hA
+              simp only [List.mem_cons] at hA
+              rcases hA with hA | hA
+              · exact sibOf_ne k hA
+              · have h1 := hsep _ hA
+                have h2 := hasc.1 _ hA
+                unfold sibOf at h1 h2
+                split at h1 <;> omega
+            · rw [hpl1] at hB
+              have := hBlt _ hB
+              omega)
+        rcases hiter with hiter | hfail
+        swap
+        · right; exact hfail
+        rw [hiter, insertIdx_wlp_fresh (by omega) hmb' rest B (fun a ha => hAb a (by simp [ha])) hBlt]
+        have hinv1 : SInv L.length l S rest (B ++ [k / 2]) :=
+          SInv_advance (pre := [k]) (by simpa using hinv) (by simp) (by simp) hsep
+        rcases ih rest.length (by omega) rest _ (acc ++ sibOne hf L l k) f' rfl hinv1 (by omega) with
+          ⟨f2, h1, h2, h3⟩ | hfail
+        · left
+          refine ⟨f2, by omega, by simpa using h2, ?_⟩
+          rw [h3]; simp
+        · right; exact hfail
+
+
+/-- `getSiblingHashes` from a layer on produces the sibling hashes of the specification -/
+theorem sibLoop_spec (hf : HashFns) (t : Tree) (L : List Bytes) (hst : Stored hf t L) (h : Nat)
+    (hnH : L.length ≤ 2 ^ (h - 1)) (hh : 1 ≤ h) (S : List Nat) :
+    ∀ (d l : Nat) (A : List Nat) (acc : List Bytes) (f : Nat), l + d = h - 1 → A ≠ [] →
+      SInv L.length l S A [] → d * A.length + 1 ≤ f →
+      siblingLoop t (layerStructure L.length) L.length h (S.map fun p => 2 ^ h + p) f (wlp h l A []) acc
+        = some (acc ++ sibSpec hf L d l A) ∨
+      (siblingLoop t (layerStructure L.length) L.length h (S.map fun p => 2 ^ h + p) f (wlp h l A []) acc = none
+        ∧ 30 < h) := by
+  intro d
+  induction d with
+  | zero =>
+    intro l A acc f hld hne hinv hf'
+    left
+    have hl : l = h - 1 := by omega
+    subst hl
+    have hp : 0 < 2 ^ (h - 1) := Nat.pow_pos (by decide)
+    have hzero : ∀ a ∈ A, a = 0 := by
+      intro a ha
+      have := hinv.okA a ha
+      rcases Nat.eq_zero_or_pos a with h0 | h0
+      · exact h0
+      · have : 2 ^ (h - 1) ≤ a * 2 ^ (h - 1) := Nat.le_mul_of_pos_left _ h0
+        omega
+    match A, hne with
+    | [k], _ =>
+      have hk0 := hzero k (by simp)
+      subst hk0
+      obtain ⟨f', rfl⟩ : ∃ f', f = f' + 1 := ⟨f - 1, by omega⟩
+      have hidx : nIdx h (h - 1) 0 = 2 := by
+        unfold nIdx; rw [show h - (h - 1) = 1 by omega]; rfl
+      simp [wlp, hidx, siblingLoop, sibSpec]
+    | e1 :: e2 :: rest, _ =>
+      exfalso
+      have h1 := hzero e1 (by simp)
+      have h2 := hzero e2 (by simp)
+      have := (List.pairwise_cons.mp hinv.ascA).1 e2 (by simp)
+      omega
+  | succ d ih =>
+    intro l A acc f hld hne hinv hf'
+    have hl : l + 2 ≤ h := by omega
+    have hfA : A.length ≤ f := by
+      have : (d + 1) * A.length = d * A.length + A.length := by ring
+      omega
+    rcases sibLayerLoop hf t L hst h hnH S l hl A.length A [] acc f rfl hinv hfA with ⟨f', h1, h2, h3⟩ | hfail
+    swap
+    · right; exact hfail
+    simp only [List.nil_append] at h2 h3
+    have hlenP := sibLayer_length hf L l A.length A rfl
+    have hPne : (sibLayer hf L l A).2 ≠ [] := fun e =>
+      hne ((sibLayer_ok hf L l A.length A rfl hinv.okA hinv.ascA).2.2.2 e)
+    have hwl : wlp h l [] (sibLayer hf L l A).2 = wlp h (l + 1) (sibLayer hf L l A).2 [] := by simp [wlp]
+    rw [h3, hwl]
+    have hfuel : d * (sibLayer hf L l A).2.length + 1 ≤ f' := by
+      have h4 : d * (sibLayer hf L l A).2.length ≤ d * A.length := Nat.mul_le_mul_left _ hlenP
+      have : (d + 1) * A.length = d * A.length + A.length := by ring
+      omega
+    rcases ih (l + 1) _ (acc ++ (sibLayer hf L l A).1) f' (by omega) hPne (SInv_next h2) hfuel with hok | hfail
+    · left
+      rw [hok]
+      simp [sibSpec]
+    · right; exact hfail
+
+/-- `getSiblingHashes` for distinct leaf positions -/
+theorem siblingHashes_spec (hf : HashFns) (t : Tree) (L : List Bytes) (hst : Stored hf t L)
+    (hsize : t.core.size = L.length) (pos : List Nat) (q : List Bytes) (hnd : pos.Nodup)
+    (hlt : ∀ p ∈ pos, p < L.length) (hlen : q.length = pos.length) (hne : pos ≠ []) :
+    siblingHashes t (pos.map fun p => 2 ^ getHeight L.length + p)
+      = some (sibSpec hf L (getHeight L.length - 1) 0 ((layer0 pos q).map (·.1))) ∨
+    (siblingHashes t (pos.map fun p => 2 ^ getHeight L.length + p) = none ∧ 30 < getHeight L.length) := by
+  obtain ⟨p0, hp0⟩ := List.exists_mem_of_ne_nil pos hne
+  have hn : 1 ≤ L.length := by have := hlt p0 hp0; omega
+  have hh1 : 1 ≤ getHeight L.length := by simp [getHeight]
+  have hnH : L.length ≤ 2 ^ (getHeight L.length - 1) := by
+    have := le_two_pow_clog2 L.length hn
+    simpa [getHeight] using this
+  unfold siblingHashes
+  simp only [hsize]
+  rw [sortIdx_layer0 L.length (getHeight L.length) pos q hnH hlt hlen, wl_eq_wlp]
+  simp only [List.map_nil]
+  have hl0 : (layer0 pos q).length = pos.length := by
+    rw [(layer0_perm pos q).length_eq]; simp; omega
+  have hposlen : 0 < pos.length := List.length_pos_iff.mpr hne
+  have hA0ne : (layer0 pos q).map (·.1) ≠ [] := by
+    intro e
+    have : ((layer0 pos q).map (·.1)).length = 0 := by rw [e]; rfl
+    rw [List.length_map, hl0] at this; omega
+  have hmem : ∀ e, e ∈ layer0 pos q ↔ e ∈ pos.zip q := fun e => (layer0_perm pos q).mem_iff
+  have hinv : SInv L.length 0 pos ((layer0 pos q).map (·.1)) [] := by
+    refine ⟨?_, ?_, List.Pairwise.nil, (fun b hb => by cases hb), (fun b hb => by cases hb), ?_⟩
+    · exact List.Pairwise.map _ (fun a b hab => hab) (layer0_asc pos q hnd hlen)
+    · intro a ha
+      simp only [List.mem_map] at ha
+      obtain ⟨e, he, rfl⟩ := ha
+      simpa using hlt e.1 (List.of_mem_zip ((hmem e).1 he)).1
+    · intro p hp
+      left
+      have hpz : p ∈ (pos.zip q).map (·.1) := by rw [List.map_fst_zip (by omega)]; exact hp
+      simp only [List.mem_map] at hpz
+      obtain ⟨e, he, rfl⟩ := hpz
+      simp only [Nat.pow_zero, Nat.div_one, List.mem_map]
+      exact ⟨e, (hmem e).2 he, rfl⟩
+  have hsum : sumBitLen (wlp (getHeight L.length) 0 (List.map (fun x => x.1) (layer0 pos q)) [])
+      = pos.length * (getHeight L.length + 1) := by
+    rw [sumBitLen_const _ (getHeight L.length + 1)]
+    · simp [wlp, hl0]
+    · intro x hx
+      simp only [wlp, List.map_nil, List.append_nil, List.map_map] at hx
+      obtain ⟨e, he, rfl⟩ := List.mem_map.mp hx
+      have hp := hlt e.1 (List.of_mem_zip ((hmem e).1 he)).1
+      have hle : 2 ^ (getHeight L.length - 1) ≤ 2 ^ (getHeight L.length - 0) :=
+        Nat.pow_le_pow_right (by decide) (by omega)
+      have := bitLen_nIdx (show e.1 < 2 ^ (getHeight L.length - 0) by omega)
+      simpa using this
+  rw [hsum]
+  have := sibLoop_spec hf t L hst (getHeight L.length) hnH hh1 pos (getHeight L.length - 1) 0
+    ((layer0 pos q).map (·.1)) [] (pos.length * (getHeight L.length + 1) + 1) (by omega) hA0ne hinv (by
+      rw [List.length_map, hl0]
+      have : (getHeight L.length - 1) * pos.length ≤ pos.length * (getHeight L.length + 1) := by
+        rw [Nat.mul_comm]; exact Nat.mul_le_mul_left _ (by omega)
+      omega)
+  simpa using this
+
+
+/-! ### `GenerateProof` + `VerifyProof` for several leaves -/
+
+theorem getIndexes_leaves (hf : HashFns) (t : Tree) (L : List Bytes) (hh : H2L hf t L) (hnd : L.Nodup)
+    (hsep : ∀ a b x, x ∈ L → hf.branch a b ≠ x) (h : Nat) (hnH : L.length ≤ 2 ^ (h - 1)) (hh1 : 1 ≤ h)
+    (hb : h ≤ 30) : ∀ (pos : List Nat) (q : List Bytes), q.length = pos.length →
+    (∀ e ∈ pos.zip q, L[e.1]? = some e.2) → getIndexes t h q = some (pos.map fun p => 2 ^ h + p) := by
+  intro pos
+  induction pos with
+  | nil =>
+    intro q hl _
+    have : q = [] := List.eq_nil_of_length_eq_zero (by simpa using hl)
+    subst this; rfl
+  | cons p ps ih =>
+    intro q hl hq
+    match q, hl with
+    | x :: xs, hl =>
+      have hx : L[p]? = some x := hq (p, x) (by simp)
+      have hpl : p < L.length := by
+        rcases Nat.lt_or_ge p L.length with h' | h'
+        · exact h'
+        · rw [List.getElem?_eq_none h'] at hx; cases hx
+      simp only [getIndexes]
+      rw [ih xs (by simpa using hl) (fun e he => hq e (by simp [he])), getLoc_leaf hf t L hh hnd hsep p x hx]
+      simp only
+      have hpb : p < 2 ^ (h - 1 - 0) := by simp; omega
+      rw [locIndex_some' h 0 p (by omega) hpb hb]
+      simp
+
+/-- the generated proof for distinct leaves of a tree with an exact store verifies -/
+theorem generate_verify_multi (hf : HashFns) (t : Tree) (L : List Bytes) (hst : Stored hf t L)
+    (hsize : t.core.size = L.length) (hh : H2L hf t L) (hnd : L.Nodup)
+    (hsep : ∀ a b x, x ∈ L → hf.branch a b ≠ x) (pos : List Nat) (q : List Bytes) (hpnd : pos.Nodup)
+    (hne : pos ≠ []) (hlen : q.length = pos.length) (hq : ∀ e ∈ pos.zip q, L[e.1]? = some e.2)
+    (hb : getHeight L.length ≤ 30) :
+    ∃ p, generateProof t q = some p ∧ verifyProof hf q p (rootH hf L) = true := by
+  have hlt : ∀ p ∈ pos, p < L.length := by
+    intro p hp
+    have hpz : p ∈ (pos.zip q).map (·.1) := by rw [List.map_fst_zip (by omega)]; exact hp
+    simp only [List.mem_map] at hpz
+    obtain ⟨e, he, rfl⟩ := hpz
+    have := hq e he
+    rcases Nat.lt_or_ge e.1 L.length with h' | h'
+    · exact h'
+    · rw [List.getElem?_eq_none h'] at this; cases this
+  obtain ⟨p0, hp0⟩ := List.exists_mem_of_ne_nil pos hne
+  have hn : 1 ≤ L.length := by have := hlt p0 hp0; omega
+  have hh1 : 1 ≤ getHeight L.length := by simp [getHeight]
+  have hnH : L.length ≤ 2 ^ (getHeight L.length - 1) := by
+    have := le_two_pow_clog2 L.length hn
+    simpa [getHeight] using this
+  refine ⟨⟨L.length, pos.map fun p => 2 ^ getHeight L.length + p,
+    sibSpec hf L (getHeight L.length - 1) 0 ((layer0 pos q).map (·.1))⟩, ?_, ?_⟩
+  · unfold generateProof
+    rw [hsize, if_neg (by omega), getIndexes_leaves hf t L hh hnd hsep _ hnH hh1 hb pos q hlen hq]
+    simp only
+    rcases siblingHashes_spec hf t L hst hsize pos q hpnd hlt hlen hne with h | ⟨_, h30⟩
+    · rw [h]
+    · omega
+  · apply calcSpec_verify hf L.length hn pos q _ _ hpnd hlt hlen hne hb
+    have hval : layer0 pos q = valLay hf L 0 ((layer0 pos q).map (·.1)) := by
+      unfold valLay
+      rw [List.map_map]
+      conv => lhs; rw [← List.map_id (layer0 pos q)]
+      apply List.map_congr_left
+      intro e he
+      have hez := (layer0_perm pos q).mem_iff.1 he
+      have := hq e hez
+      simp only [id, Function.comp]
+      rw [blk_leaf L e.1 e.2 this, rootH_singleton]
+    have hl0 : (layer0 pos q).length = pos.length := by
+      rw [(layer0_perm pos q).length_eq]; simp; omega
+    have hA0ne : (layer0 pos q).map (·.1) ≠ [] := by
+      intro e
+      have : ((layer0 pos q).map (·.1)).length = 0 := by rw [e]; rfl
+      have hposlen : 0 < pos.length := List.length_pos_iff.mpr hne
+      rw [List.length_map, hl0] at this; omega
+    have := calcSpec_complete hf L (getHeight L.length - 1) 0 ((layer0 pos q).map (·.1)) []
+      (by simpa using hnH) hA0ne (by
+        intro k hk
+        simp only [List.mem_map] at hk
+        obtain ⟨e, he, rfl⟩ := hk
+        simpa using hlt e.1 (List.of_mem_zip ((layer0_perm pos q).mem_iff.1 he)).1)
+      (List.Pairwise.map _ (fun a b hab => hab) (layer0_asc pos q hpnd hlen))
+    rw [List.append_nil, ← hval] at this
+    exact this
+
+
+/-! ### `Append` never fails on a tree with an exact store -/
+
+theorem getHash_saveNode_ne_none (t : Tree) (x : Bytes) (l loc : Loc) (h : t.getHash loc ≠ none) :
+    (t.saveNode x l).getHash loc ≠ none := by
+  rw [getHash_saveNode]
+  split
+  · simp
+  · exact h
+
+theorem storeLoop_ok (hf : HashFns) (height size : Nat) : ∀ (f : Nat) (c : Ctr) (h : Nat) (cur : Bytes) (t0 : Tree),
+    size >>> h = Ctr.toNat c →
+    (∀ h', h' + 1 = height - 1 → (size >>> h') % 2 = 1 → t0.getHash (h' + 1, size >>> (h' + 1)) ≠ none) →
+    (storeLoop hf height size f h (Ctr.path hf c) cur t0).2 = true := by
+  intro f
+  induction f with
+  | zero => intro c h cur t0 _ _; rfl
+  | succ f ih =>
+    intro c h cur t0 hsz hchk
+    have hshift : size >>> (h + 1) = Ctr.toNat c / 2 := by rw [Nat.shiftRight_succ, hsz]
+    cases c with
+    | nil =>
+      have hb : ((size >>> h) % 2 == 1) = false := by rw [hsz]; rfl
+      simp only [storeLoop, hb, Bool.false_eq_true, if_false]
+      exact ih [] (h + 1) cur t0 (by rw [hshift]; rfl) hchk
+    | cons o r =>
+      cases o with
+      | none =>
+        have hb : ((size >>> h) % 2 == 1) = false := by rw [hsz]; simp [Ctr.toNat]
+        simp only [storeLoop, hb, Bool.false_eq_true, if_false, Ctr.path]
+        exact ih r (h + 1) cur t0 (by rw [hshift, Ctr.toNat_cons_div]) hchk
+      | some p =>
+        have hbit : (size >>> h) % 2 = 1 := by rw [hsz]; simp [Ctr.toNat]
+        have hb : ((size >>> h) % 2 == 1) = true := by rw [hbit]; rfl
+        have hnext : ∀ t1 : Tree, (∀ h', h' + 1 = height - 1 → (size >>> h') % 2 = 1 →
+            t1.getHash (h' + 1, size >>> (h' + 1)) ≠ none) →
+            (storeLoop hf height size f (h + 1) (Ctr.path hf r) (hf.branch (rootH hf p) cur) t1).2 = true :=
+          fun t1 h1 => ih r (h + 1) _ t1 (by rw [hshift, Ctr.toNat_cons_div]) h1
+        simp only [storeLoop, hb, if_true, Ctr.path]
+        split
+        · rename_i heq
+          have heq' : h + 1 = height - 1 := by simpa using heq
+          have := hchk h heq' hbit
+          split
+          · rename_i hnone; exact absurd hnone this
+          · exact hnext _ (fun h' e1 e2 => getHash_saveNode_ne_none _ _ _ _ (hchk h' e1 e2))
+        · exact hnext _ (fun h' e1 e2 => getHash_saveNode_ne_none _ _ _ _ (hchk h' e1 e2))
+
+/-- `Append` on a tree that follows a counter and has an exact store succeeds -/
+theorem append_ok (hf : HashFns) (t : Tree) (c : Ctr) (v : Bytes) (hw : Ctr.WF 0 c) (hc : Ctr.Canon c)
+    (hcore : t.core = coreOf hf c) (hst : Stored hf t (Ctr.flat c)) : (append hf t v).2 = true := by
+  have hac := appendCore_ctr hf c hw hc v
+  rw [← hcore] at hac
+  have hsize : t.core.size = Ctr.toNat c := by rw [hcore]; rfl
+  have hpath : t.core.path = Ctr.path hf c := by rw [hcore]; rfl
+  have hlen : (Ctr.flat c).length = Ctr.toNat c := by rw [Ctr.length_flat hw]; simp
+  unfold append
+  by_cases hz : t.core.size = 0
+  · simp only [hz, if_true, hac]
+  · simp only [hz, if_false, hac]
+    have hn2 : 1 ≤ t.core.size := by omega
+    have hok := storeLoop_ok hf (getHeight t.core.size) t.core.size (getHeight t.core.size) c 0 (hf.leaf v)
+      (t.saveNode (hf.leaf v) (0, t.core.size)) (by rw [hsize]; rfl) (by
+        intro h' e1 e2
+        apply getHash_saveNode_ne_none
+        -- the node below the root of a size that is not a power of two is stored
+        have hc1 : h' + 1 = clog2 t.core.size := by simp [getHeight] at e1; omega
+        have hn3 : 2 ≤ t.core.size := by
+          rcases Nat.lt_or_ge t.core.size 2 with h | h
+          · have : t.core.size = 1 := by omega
+            rw [this] at hc1; simp [clog2] at hc1
+          · exact h
+        have hle := le_two_pow_clog2 t.core.size hn2
+        have hlt := two_pow_clog2_lt hn3
+        rw [← hc1] at hle hlt
+        simp only [Nat.add_sub_cancel] at hlt
+        rw [Nat.shiftRight_eq_div_pow] at e2
+        have hne : t.core.size ≠ 2 ^ (h' + 1) := by
+          intro e
+          rw [e, Nat.pow_succ, Nat.mul_div_cancel_left _ (Nat.pow_pos (by decide))] at e2
+          omega
+        have hz' : t.core.size >>> (h' + 1) = 0 := by
+          rw [Nat.shiftRight_eq_div_pow]; exact Nat.div_eq_of_lt (by omega)
+        rw [hz']
+        have := hst (h' + 1) 0 (Or.inr ⟨by omega, by simp only [Nat.add_sub_cancel]; rw [hlen, ← hsize]; omega⟩)
+        rw [this]; simp)
+    rw [hpath]
+    revert hok
+    generalize storeLoop hf (getHeight t.core.size) t.core.size (getHeight t.core.size) 0 (Ctr.path hf c)
+      (hf.leaf v) (t.saveNode (hf.leaf v) (0, t.core.size)) = sl
+    intro hok
+    obtain ⟨t2, b⟩ := sl
+    simp only at hok
+    subst hok
+    rfl
+
+
 end LiskVerif.RMT
